@@ -5,7 +5,7 @@ import asmk
 
 PROP = "C08"
 NAMES = ["gg1", ".ll1", "sc1.ll1", "gg2"]
-OPS = ["label", "defl", "defn", "redefl", "redefn", "undef", "isdef", "use", "usefwd"]
+OPS = ["label", "defl", "defn", "redefl", "redefn", "undef", "isdef", "use", "usefwd", "use2", "usepair"]
 
 class Abstract:
     """the abstract history machine: a finite map name -> expression over names/ints, with the
@@ -99,6 +99,18 @@ def run_history(hist, only_failed=False):
             if d is None: break
             e = A.inline(('add', d, 0))
             A.bytes.append(e & 255 if isinstance(e, int) else ('late', e)); A.here += 1
+        elif op in ("use2", "usepair"):
+            # one deferred expression that reaches names twice (the same name, or two names that may share a pending base)
+            m = n if op == "use2" else arg
+            d, dm = A.q(n), A.q(m)
+            lines.append("@db ( %s + %s ) & 255" % (n, m))
+            if d is None or dm is None: break
+            e1, e2 = A.inline(('add', d, 0)), A.inline(('add', dm, 0))
+            if isinstance(e1, int) and isinstance(e2, int):
+                A.bytes.append((e1 + e2) & 255)
+            else:
+                A.bytes.append(('late2', e1, e2))
+            A.here += 1
     text = "\n".join(lines) + "\n"
     if only_failed:
         return A.failed
@@ -112,6 +124,11 @@ def run_history(hist, only_failed=False):
     for b in A.bytes:
         if isinstance(b, int):
             out.append(b)
+        elif b[0] == 'late2':
+            v1, v2 = A.solve(b[1], A.tab), A.solve(b[2], A.tab)
+            if v1 is None or v2 is None:
+                return text, "DIAG"
+            out.append((v1 + v2) & 255)
         else:
             v = A.solve(b[1], A.tab)
             if v is None:
@@ -125,10 +142,12 @@ def gen_step(rng):
     arg = None
     if op in ("defl", "defn", "redefl", "redefn"):
         arg = rng.choice([rng.randrange(0, 300), n, rng.choice(NAMES)])
+    if op == "usepair":
+        arg = rng.choice(NAMES)
     return (op, n, arg)
 
 def run(ck):
-    ck.rule = ("histories over {label, @defl, @defn, @redefl, @redefn, @undef, @isdef probe, use, use-before-definition} x "
+    ck.rule = ("histories over {label, @defl, @defn, @redefl, @redefn, @undef, @isdef probe, use, use-before-definition, use of one name twice / of two names in one expression} x "
                "{global, local, direct (the same symbol as the local), second global} names, definitions by constants and by "
                "`X + 1` (incl. self-referential @redefn X, X+1): all histories up to length 3 (quick) / 4 (thorough) with a fixed "
                "argument choice, random ones up to length 40; a probe byte per use / @isdef.  O: an abstract map machine in the driver "
@@ -137,7 +156,12 @@ def run(ck):
     harness, model = asmk.setup(ck, PROP)
     rng = ck.rng
     thorough = ck.tier == "thorough"
-    hists = [[("defn", "gg1", 1), ("use", "gg1", None), ("undef", "gg1", None)]]      # the historical defect
+    hists = [[("defn", "gg1", 1), ("use", "gg1", None), ("undef", "gg1", None)],      # the historical defect
+             # one deferred expression reaching a pending name twice / through two paths
+             [("use2", "gg1", None), ("defn", "gg1", 5)],
+             [("defn", "gg2", "gg1"), ("use2", "gg2", None), ("defn", "gg1", 3)],
+             [("defn", "gg2", "gg1"), ("defl", ".ll1", "gg1"), ("usepair", "gg2", ".ll1"), ("defn", "gg1", 3)],
+             [("defl", ".ll1", "gg2"), ("use2", ".ll1", None), ("use", ".ll1", None), ("defn", "gg2", 9)]]
     L = 4 if thorough else 3
     for n in range(1, L + 1):
         for ops in itertools.product(OPS, repeat=n):
@@ -147,6 +171,8 @@ def run(ck):
                     arg = None
                     if op in ("defl", "defn", "redefl", "redefn"):
                         arg = [7 + i, nm, "gg2"][i % 3] if op.startswith("re") else [7 + i, "gg2"][i % 2]
+                    if op == "usepair":
+                        arg = "gg2"
                     h.append((op, nm, arg))
                 hists.append(h)
     ck.exhaustive = True
